@@ -584,10 +584,18 @@ def r166(facts, res):
         cand = [l for l in sets if l not in removed]
         if len(cand) == 1 and len(sets) == 2:
             keep = cand[0]
+    if keep is None and len(sets) == 1:
+        keep = sets[0]
     if keep is None:
         res.lost(R, 'cannot identify the keep-set of gc')
         return
     work = [l for l in sets if l != keep]
+    if not work:
+        # mark-on-push form: the work list is a Vec stack; a state is put into the keep-set at the moment it is pushed
+        vstacks = [l for l, ty in enumerate(b.locals) if ty['ty'].startswith('alloc::vec::Vec<lrtable::StIdx<usize>') and b.name_of(l)
+                   and any(cname(t) == 'pop' and t['args'] and b.op_root(t['args'][0])[0] == l for bb, t in b.calls())]
+        if len(vstacks) == 1:
+            return r166_stack(b, res, R, keep, vstacks[0])
     THR = Body.THROUGH + ('unwrap', 'next', 'expect', 'copied', 'cloned')
     def from_worklist(op):
         r, projs, via = b.op_root(op, through=THR, stop_named=False)
@@ -630,6 +638,65 @@ def r166(facts, res):
         res.bad(R, 'keep-set-is-reachability', loc_of(b), '; '.join(sorted(set(bad))[:2]))
     else:
         res.ok(R, 'keep-set-is-reachability', loc_of(b), 'states enter the keep-set only from the work list; the work list receives the start state and the edge targets of taken states (%d additions)' % nadd)
+
+
+def r166_stack(b, res, R, keep, stack):
+    """keep-set built by a stack-based traversal that marks on push: a state is inserted into the keep-set only if it is the
+    start state or an edge target of a state popped from the stack; the stack receives the start state and exactly the states
+    whose insertion into the keep-set reported them new"""
+    THR = Body.THROUGH + ('unwrap', 'next', 'expect', 'copied', 'cloned', 'pop', 'values', 'index', 'iter', 'into_iter', 'from', 'into')
+    bad = []
+    nadd = 0
+
+    def is_start(op):
+        r, _p, _v = b.op_root(op, through=Body.THROUGH + ('copied', 'cloned'), stop_named=False)
+        return r is not None and 1 <= r <= b.arg_count and 'StIdx' in b.lty(r)
+
+    def is_edge_target_of_popped(op, bb):
+        r, projs, via = b.op_root(op, through=THR, stop_named=False)
+        if 'values' not in via or 'next' not in via:
+            return False
+        # the map whose values are walked is edges[X] with X popped from the stack
+        for b2, t2 in b.calls_named('index'):
+            if len(t2['args']) == 2 and b.dominates(b2, bb):
+                r2, p2, v2 = b.op_root(t2['args'][1], through=THR, stop_named=False)
+                if r2 == stack and 'pop' in v2:
+                    return True
+        return False
+    inserts = {}
+    for bb, t in b.calls():
+        nm = cname(t)
+        if not t['args']:
+            continue
+        tgt = b.op_root(t['args'][0])[0]
+        if tgt == keep and nm in ('insert', 'extend'):
+            nadd += 1
+            if nm == 'insert' and (is_start(t['args'][1]) or is_edge_target_of_popped(t['args'][1], bb)):
+                inserts[bb] = (t, b.op_root(t['args'][1], through=Body.THROUGH + ('copied', 'cloned'))[0])
+                continue
+            bad.append('line %s: a state is put into the keep-set that is neither the start state nor an edge target of a state taken from the work list' % t.get('line'))
+        elif tgt == stack and nm == 'push':
+            nadd += 1
+            if is_start(t['args'][1]):
+                continue
+            pr = b.op_root(t['args'][1], through=Body.THROUGH + ('copied', 'cloned'))[0]
+            ok = False
+            for ib, (it, ir) in inserts.items():
+                if ir == pr and b.dominates(ib, bb):
+                    # pushed only when the insertion reported the state new
+                    for sb in b.control_deps_pd(bb):
+                        ol = op_local(b.term(sb)['on'])
+                        if ol is not None and b.root(ol, through=(), stop_named=False)[0] == it['dest']['l']:
+                            ok = True
+            if not ok:
+                bad.append('line %s: something is pushed onto the work list that was not just found new in the keep-set' % t.get('line'))
+        elif tgt == stack and nm not in ('pop', 'is_empty', 'len', 'push', 'drop', 'drop_in_place', 'reserve'):
+            bad.append('line %s: the work list is changed by `%s`' % (t.get('line'), nm))
+    if bad:
+        res.bad(R, 'keep-set-is-reachability', loc_of(b), '; '.join(sorted(set(bad))[:2]))
+    else:
+        res.ok(R, 'keep-set-is-reachability', loc_of(b), 'mark-on-push traversal: the keep-set receives the start state and edge targets of popped states; the stack receives '
+               'exactly the states found new (%d additions)' % nadd)
 
 
 def from_worklist_via_from(b, op, work, THR):
